@@ -229,6 +229,109 @@ def one_case(ctx, bench_client, root_s, root_t, idx, am_root, transport="pipe"):
                 pass
 
 
+KINDS = ("file", "symlink->file", "symlink->dir", "dir")
+CELLS = [(k, o, b) for k in KINDS for o in ("utime", "chown", "chmod", "truncate") for b in ("path", "handle")
+         if not (b == "handle" and k in ("dir", "symlink->dir"))]  # a directory cannot be opened as a file handle
+
+
+def lsnap(path):
+    try:
+        st = os.lstat(path)
+    except OSError as e:
+        return dict(missing=type(e).__name__)
+    return dict(mode=st.st_mode, uid=st.st_uid, gid=st.st_gid, mtime=st.st_mtime_ns, islink=statmod.S_ISLNK(st.st_mode))
+
+
+def gen_op_of(rng, k, size, am_root):
+    while True:
+        op = gen_op(rng, size, "file", am_root)
+        if op[0] == k:
+            return op
+
+
+def target_kind_case(ctx, client, root_s, root_t, idx, am_root, transport="pipe"):
+    """Explicit stratum target kind x operation x by path/handle. For the symlink kinds the path handed to SFTP (and
+    to the os call on the twin tree) is the link: the os calls follow it, so the *target* must change exactly like the
+    twin's target and the link itself (lstat) must stay as the twin's link."""
+    rng = ctx.rng
+    kind, opk, by = CELLS[(idx // 4 + ctx.shard * 5) % len(CELLS)]
+    tname, lname = "k%d" % idx, "k%d.lnk" % idx
+    size = 0
+    m0 = rng.choice([0o644, 0o600, 0o666]) if kind.endswith("file") else rng.choice([0o755, 0o700])
+    t0 = (rng.randrange(1, 1 << 31), rng.randrange(1, 1 << 31))
+    lt0 = rng.randrange(1, 1 << 30) * 10 ** 9
+    if kind.endswith("file"):
+        size = rng.choice([0, 1, 100, 5000, 70000, rng.randint(0, 3000)])
+        data = rng.randbytes(size)
+        if size:
+            data = bytes([(data[0] | 1)]) + data[1:]
+    for root in (root_s, root_t):
+        tp = os.path.join(root, tname)
+        if kind.endswith("file"):
+            with open(tp, "wb") as f:
+                f.write(data)
+        else:
+            os.mkdir(tp)
+        os.chmod(tp, m0)
+        os.utime(tp, t0)
+        if kind.startswith("symlink"):
+            lp = os.path.join(root, lname)
+            os.symlink(tname, lp)  # relative: resolves inside its own tree
+            os.utime(lp, ns=(lt0, lt0), follow_symlinks=False)
+    used = lname if kind.startswith("symlink") else tname
+    op = gen_op_of(rng, opk, size, am_root)
+    omode = rng.choice(["r", "r+", "rb", "r+b"]) if by == "handle" else None
+    desc = dict(kind=kind, by=by, open_mode=omode, size=size, ops=[op], path_given="/" + used, transport=transport)
+    ctx.case(("kind", kind, by, omode, size, op, transport), sample=desc if idx % 97 == 1 else None)
+    how = "by handle" if by == "handle" else "by path"
+    st_s, st_t = os.path.join(root_s, tname), os.path.join(root_t, tname)
+    fobj = None
+    try:
+        if by == "handle":
+            fobj = client.open("/" + used, omode)
+        before_s, before_t = snap(st_s), snap(st_t)
+        lb_s = lsnap(os.path.join(root_s, lname)) if kind.startswith("symlink") else None
+        os_exc = sftp_exc = None
+        try:
+            apply_os(op, os.path.join(root_t, used))
+        except OSError as e:
+            os_exc = e
+        try:
+            apply_sftp(op, fobj if by == "handle" else client, by == "handle", "/" + used)
+        except (IOError, OSError) as e:
+            sftp_exc = e
+        ctx.count("sftp_attr_calls")
+        ctx.count("cell %s | %s | %s" % (kind, opk, by))
+        ok = judge(ctx, op, how, before_s, before_t, st_s, st_t, desc, os_exc, sftp_exc)
+        if ok and kind.startswith("symlink"):
+            ls, lt = lsnap(os.path.join(root_s, lname)), lsnap(os.path.join(root_t, lname))
+            ctx.count("symlink_lstat_comparisons")
+            for f in ("islink", "mode", "uid", "gid", "mtime"):
+                if ls.get(f) != lt.get(f):
+                    ctx.violation("%s through a symlink: the link itself differs from the os.%s twin (lstat %s)"
+                                  % (opk, opk, f),
+                                  "after %s %s on a path that is a symlink, lstat(link).%s is %r, on the twin tree %r"
+                                  % (opk, how, f, ls.get(f), lt.get(f)),
+                                  dict(case=desc, op=op, link_served=ls, link_twin=lt, link_before=lb_s))
+                    break
+    finally:
+        if fobj is not None:
+            try:
+                fobj.close()
+            except Exception:
+                pass
+        for root in (root_s, root_t):
+            for n in (lname, tname):
+                p = os.path.join(root, n)
+                try:
+                    if os.path.islink(p) or os.path.isfile(p):
+                        os.remove(p)
+                    elif os.path.isdir(p):
+                        os.rmdir(p)
+                except OSError:
+                    pass
+
+
 BUFSIZES = [-1, 1, 64, 32768]
 
 
@@ -364,6 +467,8 @@ def run_pipe(ctx, n, am_root):
             for _ in range(min(150, n - done)):
                 if done % 4 == 3:
                     buffered_handle_case(ctx, bench.client, root_s, root_t, done, am_root)
+                elif done % 4 == 1:
+                    target_kind_case(ctx, bench.client, root_s, root_t, done, am_root)
                 else:
                     one_case(ctx, bench.client, root_s, root_t, done, am_root)
                 done += 1
@@ -396,6 +501,8 @@ def run_ssh(ctx, n, am_root):
         for i in range(n):
             if i % 4 == 3:
                 buffered_handle_case(ctx, sftp, root_s, root_t, 100000 + i, am_root, transport="ssh")
+            elif i % 4 == 1:
+                target_kind_case(ctx, sftp, root_s, root_t, 100000 + i, am_root, transport="ssh")
             else:
                 one_case(ctx, sftp, root_s, root_t, 100000 + i, am_root, transport="ssh")
             ctx.count("ssh_cases")
@@ -416,6 +523,9 @@ def run(ctx):
     ctx.require("stat_comparisons", ctx.pick(2500, 30000))
     ctx.require("content_comparisons", ctx.pick(2000, 25000))
     ctx.require("truncate_contents_equal", ctx.pick(150, 2000))
+    for kind, opk, by in CELLS:
+        ctx.require("cell %s | %s | %s" % (kind, opk, by), ctx.pick(20, 400))
+    ctx.require("symlink_lstat_comparisons", ctx.pick(250, 5000))
     ctx.require("buffered_handle_final_comparisons", ctx.pick(500, 8000))
     ctx.require("buffered_handle_truncate_with_unflushed_writes", ctx.pick(60, 800))
     ctx.require("buffered_handle_ops_with_readahead", ctx.pick(20, 300))
@@ -423,4 +533,4 @@ def run(ctx):
     ctx.require("wire_fsetstat_requests", ctx.pick(1000, 10000))
     for k in ("chmod", "chown", "utime", "truncate"):
         ctx.require("ops_%s_by path" % k, ctx.pick(100, 1000))
-        ctx.require("ops_%s_by handle" % k, ctx.pick(100, 1000))
+        ctx.require("ops_%s_by handle" % k, ctx.pick(80, 800))
